@@ -4,17 +4,18 @@ EXTENDS Distributor, Integers
 
 CONSTANT TraceFile
 Trace == ndJsonDeserialize(TraceFile)
-VARIABLES i, sw, sd, seenput
-tvars == <<i, sw, sd, seenput>>
+VARIABLES i, sw, sd, seenput, retried
+tvars == <<i, sw, sd, seenput, retried>>
 Ev == Trace[i]
 SeqToSet(s) == {s[j] : j \in DOMAIN s}
 
 \* the model's own variables are not used by the judge (the scenario is read from the trace)
-TInit == i = 1 /\ sw = <<>> /\ sd = <<>> /\ seenput = {}
+TInit == i = 1 /\ sw = <<>> /\ sd = <<>> /\ seenput = {} /\ retried = {}
          /\ wit = <<>> /\ dist = <<>> /\ pos = 0 /\ puts = {} /\ failed = {} /\ result = "trace"
-Start == Ev.e = "dist.start" /\ sw' = Ev.wit /\ sd' = Ev.dist /\ seenput' = {} /\ i' = i + 1
-Put == Ev.e = "dist.put" /\ seenput' = seenput \cup {Ev.log} /\ UNCHANGED <<sw, sd>> /\ i' = i + 1
-Res == Ev.e = "dist.result" /\ UNCHANGED <<sw, sd, seenput>> /\ i' = i + 1
+Start == Ev.e = "dist.start" /\ sw' = Ev.wit /\ sd' = Ev.dist /\ seenput' = {} /\ retried' = {} /\ i' = i + 1
+Put == Ev.e = "dist.put" /\ seenput' = seenput \cup {Ev.log} /\ retried' = (IF Ev.log \in seenput THEN retried \cup {Ev.log} ELSE retried)
+       /\ UNCHANGED <<sw, sd>> /\ i' = i + 1
+Res == Ev.e = "dist.result" /\ UNCHANGED <<sw, sd, seenput, retried>> /\ i' = i + 1
 TNext == i <= Len(Trace) /\ (Start \/ Put \/ Res) /\ UNCHANGED vars
 TSpec == TInit /\ [][TNext]_<<tvars, vars>>
 
@@ -24,10 +25,11 @@ MonPut ==
     /\ Check("OnlyVerifiedArePushed", Ev.log \in 1..N /\ sw[Ev.log] = "valid")
     /\ Check("BytesAreTheWitnessAnswer", Ev.bodyisanswer)
     /\ Check("PathNamesLogIdAndWitness", Ev.pathok /\ Ev.method = "PUT")
-    /\ Check("OncePerLog", Ev.log \notin seenput \/ (Ev.log \in 1..N /\ sd[Ev.log] = "redirect307"))
+    /\ Check("OncePerLog", Ev.log \notin seenput \/ (Ev.log \in 1..N /\ sd[Ev.log] \in Flaky \cup {"redirect307"}))
 MonRes ==
     /\ Check("EveryLogAttempted", seenput = {l \in 1..N : sw[l] = "valid"})
-    /\ Check("ErrorIffSomeLogFailed", Ev.err = (\E l \in 1..N : sw[l] # "valid" \/ ~Delivered(sd[l])))
+    \* (a transient first answer: delivered exactly when the implementation came back with a second PUT, which the stub answers with 200)
+    /\ Check("ErrorIffSomeLogFailed", Ev.err = (\E l \in 1..N : sw[l] # "valid" \/ ~(IF sd[l] \in Flaky THEN l \in retried ELSE Delivered(sd[l]))))
     /\ Check("WitnessAskedForEveryLog", SeqToSet(Ev.asked) = 1..N)
     /\ Check("Terminates", ~Ev.hang)
 Monitor == CASE Ev.e = "dist.put" -> MonPut [] Ev.e = "dist.result" -> MonRes [] OTHER -> TRUE
